@@ -77,21 +77,32 @@ impl Engine {
         }
         let before = t.polls();
         t.grant();
-        for _ in 0..10_000 {
+        for i in 0..2_000_000u32 {
             tokio::task::yield_now().await;
             if t.polls() != before || t.is_done() {
                 return true;
+            }
+            // the task may live on another thread's runtime (thread-local actors)
+            if i > 50 {
+                std::thread::sleep(std::time::Duration::from_micros(20));
+            } else {
+                std::thread::yield_now();
             }
         }
         panic!("granted task {} was never polled", t.id);
     }
     /// Yield until the task's future is gone (after `JoinHandle::abort`).
     pub async fn settle_done(&self, t: &TaskCtl) {
-        for _ in 0..10_000 {
+        for i in 0..2_000_000u32 {
             if t.is_done() {
                 return;
             }
             tokio::task::yield_now().await;
+            if i > 50 {
+                std::thread::sleep(std::time::Duration::from_micros(20));
+            } else {
+                std::thread::yield_now();
+            }
         }
         panic!("aborted task {} never went away", t.id);
     }
@@ -303,16 +314,15 @@ fn ok_err(b: bool) -> &'static str {
     }
 }
 
-impl Scripted {
-    /// The body shared by all five callbacks.
-    async fn run_cb(&self, cb: &'static str, arg: String) -> Result<(), ActorProcessingErr> {
-        let a = self.idx;
+/// The body shared by all five callbacks (of the Send and of the thread-local scripted actor).
+pub async fn run_cb(sh: &Arc<Shared>, a: usize, cb: &'static str, arg: String) -> Result<(), ActorProcessingErr> {
+    {
         verif::note(format!("enter {a} {cb}{arg}"));
         let mut guard = CbGuard { a, cb, armed: true };
         loop {
-            let seg = Gate { sh: &self.sh, a }.await;
+            let seg = Gate { sh, a }.await;
             verif::note(format!("tick {a} {cb}"));
-            let me = self.sh.slots.lock().unwrap()[a].me.clone().expect("me");
+            let me = sh.slots.lock().unwrap()[a].me.clone().expect("me");
             for fx in &seg.fx {
                 match fx {
                     Fx::SendSelf(m) => {
@@ -328,7 +338,7 @@ impl Scripted {
                         verif::note(format!("fx killself {}", ok_err(ok)));
                     }
                     Fx::Reply(k, v) => {
-                        let port = self.sh.slots.lock().unwrap()[a].held.remove(k);
+                        let port = sh.slots.lock().unwrap()[a].held.remove(k);
                         let r = match port {
                             None => "NoPort",
                             Some(p) => {
@@ -342,11 +352,11 @@ impl Scripted {
                         verif::note(format!("fx reply {k} {v} {r}"));
                     }
                     Fx::Forget(k) => {
-                        let had = self.sh.slots.lock().unwrap()[a].held.remove(k).is_some();
+                        let had = sh.slots.lock().unwrap()[a].held.remove(k).is_some();
                         verif::note(format!("fx forget {k} {}", if had { "Ok" } else { "NoPort" }));
                     }
                     Fx::Join(g) => {
-                        ractor::pg::join(self.sh.real(g), vec![me.get_cell()]);
+                        ractor::pg::join(sh.real(g), vec![me.get_cell()]);
                         verif::note(format!("fx join {g}"));
                     }
                 }
@@ -380,6 +390,33 @@ pub fn reason_str(r: &Option<String>) -> String {
     }
 }
 
+fn sup_arg(sh: &Shared, message: &SupervisionEvent) -> String {
+    match message {
+        SupervisionEvent::ActorStarted(c) => format!(" Started {}", sh.idx_of(c.get_id())),
+        SupervisionEvent::ActorTerminated(c, st, r) => format!(
+            " Terminated {} s{} {}",
+            sh.idx_of(c.get_id()),
+            u8::from(st.is_some()),
+            reason_str(r)
+        ),
+        SupervisionEvent::ActorFailed(c, e) => {
+            format!(" Failed {} {}", sh.idx_of(c.get_id()), format!("{e}").replace(' ', "_"))
+        }
+        _ => " Other".to_string(),
+    }
+}
+
+fn msg_arg(sh: &Shared, a: usize, message: Msg) -> String {
+    match message {
+        Msg::User(m) => format!(" {m}"),
+        Msg::Call(k, port) => {
+            sh.slots.lock().unwrap()[a].held.insert(k, port);
+            format!(" call{k}")
+        }
+    }
+}
+
+#[cfg_attr(feature = "async-trait", ractor::async_trait)]
 impl Actor for Scripted {
     type Msg = Msg;
     type State = ScriptState;
@@ -392,7 +429,7 @@ impl Actor for Scripted {
     ) -> Result<ScriptState, ActorProcessingErr> {
         self.sh.pids.lock().unwrap().insert(myself.get_id().pid(), self.idx);
         self.sh.slots.lock().unwrap()[self.idx].me = Some(myself);
-        self.run_cb("pre_start", String::new()).await?;
+        run_cb(&self.sh, self.idx, "pre_start", String::new()).await?;
         Ok(ScriptState)
     }
 
@@ -401,7 +438,7 @@ impl Actor for Scripted {
         _myself: ActorRef<Msg>,
         _state: &mut ScriptState,
     ) -> Result<(), ActorProcessingErr> {
-        self.run_cb("post_start", String::new()).await
+        run_cb(&self.sh, self.idx, "post_start", String::new()).await
     }
 
     async fn post_stop(
@@ -409,7 +446,7 @@ impl Actor for Scripted {
         _myself: ActorRef<Msg>,
         _state: &mut ScriptState,
     ) -> Result<(), ActorProcessingErr> {
-        self.run_cb("post_stop", String::new()).await
+        run_cb(&self.sh, self.idx, "post_stop", String::new()).await
     }
 
     async fn handle(
@@ -418,14 +455,8 @@ impl Actor for Scripted {
         message: Msg,
         _state: &mut ScriptState,
     ) -> Result<(), ActorProcessingErr> {
-        let arg = match message {
-            Msg::User(m) => format!(" {m}"),
-            Msg::Call(k, port) => {
-                self.sh.slots.lock().unwrap()[self.idx].held.insert(k, port);
-                format!(" call{k}")
-            }
-        };
-        self.run_cb("handle", arg).await
+        let arg = msg_arg(&self.sh, self.idx, message);
+        run_cb(&self.sh, self.idx, "handle", arg).await
     }
 
     async fn handle_supervisor_evt(
@@ -434,21 +465,60 @@ impl Actor for Scripted {
         message: SupervisionEvent,
         _state: &mut ScriptState,
     ) -> Result<(), ActorProcessingErr> {
-        let arg = match &message {
-            SupervisionEvent::ActorStarted(c) => format!(" Started {}", self.sh.idx_of(c.get_id())),
-            SupervisionEvent::ActorTerminated(c, st, r) => format!(
-                " Terminated {} s{} {}",
-                self.sh.idx_of(c.get_id()),
-                u8::from(st.is_some()),
-                reason_str(r)
-            ),
-            SupervisionEvent::ActorFailed(c, e) => {
-                format!(" Failed {} {}", self.sh.idx_of(c.get_id()), format!("{e}").replace(' ', "_"))
-            }
-            _ => " Other".to_string(),
-        };
+        let arg = sup_arg(&self.sh, &message);
         drop(message);
-        self.run_cb("sup", arg).await
+        run_cb(&self.sh, self.idx, "sup", arg).await
+    }
+}
+
+/// The same scripted actor as a thread-local actor (`ractor::thread_local`): constructed by
+/// `Default` on the spawner's thread, so its identity travels in the arguments / the state.
+#[derive(Default)]
+pub struct ScriptedLocal;
+
+pub struct LocalState {
+    pub idx: usize,
+    pub sh: Arc<Shared>,
+}
+
+impl ractor::thread_local::ThreadLocalActor for ScriptedLocal {
+    type Msg = Msg;
+    type State = LocalState;
+    type Arguments = (usize, Arc<Shared>);
+
+    async fn pre_start(
+        &self,
+        myself: ActorRef<Msg>,
+        (idx, sh): (usize, Arc<Shared>),
+    ) -> Result<LocalState, ActorProcessingErr> {
+        sh.pids.lock().unwrap().insert(myself.get_id().pid(), idx);
+        sh.slots.lock().unwrap()[idx].me = Some(myself);
+        run_cb(&sh, idx, "pre_start", String::new()).await?;
+        Ok(LocalState { idx, sh })
+    }
+
+    async fn post_start(&self, _myself: ActorRef<Msg>, st: &mut LocalState) -> Result<(), ActorProcessingErr> {
+        run_cb(&st.sh, st.idx, "post_start", String::new()).await
+    }
+
+    async fn post_stop(&self, _myself: ActorRef<Msg>, st: &mut LocalState) -> Result<(), ActorProcessingErr> {
+        run_cb(&st.sh, st.idx, "post_stop", String::new()).await
+    }
+
+    async fn handle(&self, _myself: ActorRef<Msg>, message: Msg, st: &mut LocalState) -> Result<(), ActorProcessingErr> {
+        let arg = msg_arg(&st.sh, st.idx, message);
+        run_cb(&st.sh, st.idx, "handle", arg).await
+    }
+
+    async fn handle_supervisor_evt(
+        &self,
+        _myself: ActorRef<Msg>,
+        message: SupervisionEvent,
+        st: &mut LocalState,
+    ) -> Result<(), ActorProcessingErr> {
+        let arg = sup_arg(&st.sh, &message);
+        drop(message);
+        run_cb(&st.sh, st.idx, "sup", arg).await
     }
 }
 
@@ -460,6 +530,8 @@ pub type SpawnRes = Result<(ActorRef<Msg>, JoinHandle<()>), SpawnErr>;
 
 #[derive(Default)]
 pub struct ActorSlot {
+    /// thread-local variant: the gated task on the spawner's thread that runs `pre_start`
+    pub start_task: Option<Arc<TaskCtl>>,
     pub spawn: Option<Hand<SpawnRes>>,
     pub handle: Option<JoinHandle<()>>,
     pub task: Option<Arc<TaskCtl>>,
@@ -493,6 +565,8 @@ pub struct World {
     pub groups: Vec<String>,
     pub waits: HashMap<u32, Hand<Result<(), ractor::concurrency::Timeout>>>,
     pub calls: HashMap<u32, CallFut>,
+    /// `Some`: every actor is spawned as a thread-local actor through this spawner
+    pub local: Option<ractor::thread_local::ThreadLocalActorSpawner>,
 }
 
 pub fn status_str(s: ActorStatus) -> &'static str {
@@ -511,6 +585,12 @@ pub fn spawn_err_str(e: &SpawnErr) -> String {
     match e {
         SpawnErr::StartupFailed(t) => {
             let t = format!("{t}");
+            // the thread-local runtime wraps the start-up error / panic text like this
+            let t = t
+                .strip_prefix("Actor panicked during startup '")
+                .and_then(|x| x.strip_suffix('\''))
+                .map(|x| x.to_string())
+                .unwrap_or(t);
             if t == "Actor killed during startup" {
                 "killed".into()
             } else if t == "Supervisor is shutting down" {
@@ -541,6 +621,147 @@ impl World {
             groups: Vec::new(),
             waits: HashMap::new(),
             calls: HashMap::new(),
+            local: None,
+        }
+    }
+
+    /// Spawn every actor of the following cases as a thread-local actor.
+    pub fn use_thread_local(&mut self) {
+        self.local = Some(ractor::thread_local::ThreadLocalActorSpawner::new());
+    }
+
+    fn spin_until(&self, what: &str, mut done: impl FnMut() -> bool) {
+        for i in 0..2_000_000u32 {
+            if done() {
+                return;
+            }
+            if i > 50 {
+                std::thread::sleep(std::time::Duration::from_micros(20));
+            } else {
+                std::thread::yield_now();
+            }
+        }
+        panic!("timeout waiting for {what}");
+    }
+
+    /// Thread-local variant of `spawn_named`: the caller future only ships the builder to the
+    /// spawner's thread; `pre_start` runs there inside a gated task.
+    async fn spawn_local_named(&mut self, sup: Option<usize>, name: Option<&str>) -> usize {
+        use ractor::thread_local::ThreadLocalActor;
+        let spawner = self.local.clone().expect("local spawner");
+        let a = self.actors.len();
+        self.sh.slots.lock().unwrap().push(Slot::default());
+        if let Some(n) = name {
+            self.note_name(n);
+        }
+        let real = name.map(|n| self.sh.real(n));
+        let args = (a, self.sh.clone());
+        let before = self.eng.ntasks();
+        let mut hand: Hand<SpawnRes> = match sup.and_then(|p| self.me(p)) {
+            Some(p) => Hand::new(ScriptedLocal::spawn_linked(real, args, p.get_cell(), spawner)),
+            None => Hand::new(ScriptedLocal::spawn(real, args, spawner)),
+        };
+        // first poll: `new()`, `Starting`, link to the supervisor, ship the builder
+        match hand.poll_once() {
+            Some(Err(e)) => {
+                verif::note(format!("ret Err({})", spawn_err_str(&e)));
+                self.actors.push(ActorSlot::default());
+                return a;
+            }
+            Some(Ok(_)) => unreachable!("thread-local spawn cannot complete in one poll"),
+            None => {}
+        }
+        let eng_ctl = self.eng.ctl.clone();
+        self.spin_until("start task", || eng_ctl.len() == before + 1);
+        let st = self.eng.ctl.task(before).expect("start task");
+        self.actors.push(ActorSlot {
+            spawn: Some(hand),
+            start_task: Some(st.clone()),
+            ..Default::default()
+        });
+        // first granted poll of the start task: `pre_start` is entered
+        self.eng.poll_task(&st).await;
+        a
+    }
+
+    async fn pollspawn_local(&mut self, a: usize) {
+        let Some(st) = self.actors[a].start_task.clone() else {
+            verif::note("nospawn".into());
+            return;
+        };
+        if !self.actors[a].spawn_alive() {
+            verif::note("nospawn".into());
+            return;
+        }
+        if !st.is_done() {
+            let before = self.eng.ntasks();
+            self.eng.poll_task(&st).await;
+            if self.eng.ntasks() == before + 1 {
+                self.actors[a].task = self.eng.ctl.task(before);
+            }
+        }
+        if st.is_done() {
+            // the start task finished: the caller's future now completes
+            for i in 0..2_000_000u32 {
+                let r = self.actors[a].spawn.as_mut().unwrap().poll_once();
+                match r {
+                    Some(Ok((_r, h))) => {
+                        self.actors[a].handle = Some(h);
+                        verif::note("ret Ok".into());
+                        return;
+                    }
+                    Some(Err(e)) => {
+                        verif::note(format!("ret Err({})", spawn_err_str(&e)));
+                        return;
+                    }
+                    None => {
+                        if i > 50 {
+                            std::thread::sleep(std::time::Duration::from_micros(20));
+                        } else {
+                            std::thread::yield_now();
+                        }
+                    }
+                }
+            }
+            panic!("caller future of a finished start task never completed");
+        } else {
+            let _ = self.actors[a].spawn.as_mut().unwrap().poll_once();
+        }
+    }
+
+    async fn dropspawn_local(&mut self, a: usize) {
+        match self.actors[a].spawn.as_mut() {
+            Some(h) if h.alive() => h.drop_now(),
+            _ => {
+                verif::note("nospawn".into());
+                return;
+            }
+        }
+        if let Some(st) = self.actors[a].start_task.clone() {
+            self.eng.settle_done(&st).await;
+        }
+    }
+
+    /// Variant-independent entry points used by the harness binaries.
+    pub async fn spawn_any(&mut self, sup: Option<usize>, name: Option<&str>) -> usize {
+        if self.local.is_some() {
+            self.spawn_local_named(sup, name).await
+        } else {
+            self.spawn_named(sup, name)
+        }
+    }
+    pub async fn pollspawn_any(&mut self, a: usize) {
+        if self.local.is_some() {
+            self.pollspawn_local(a).await
+        } else {
+            self.pollspawn(a)
+        }
+    }
+    pub async fn dropspawn_any(&mut self, a: usize) {
+        if self.local.is_some() {
+            self.dropspawn_local(a).await
+        } else {
+            self.dropspawn(a)
         }
     }
 
@@ -786,7 +1007,20 @@ impl World {
             }
             if let Some(h) = s.handle.take() {
                 let mut hand = Hand::new(h);
-                let r = match hand.poll_once() {
+                // the task's future is gone; its runtime (possibly on another thread) publishes
+                // the join result right after, so allow it a moment
+                let mut res = hand.poll_once();
+                let mut i = 0u32;
+                while res.is_none() && i < 200_000 {
+                    if i > 50 {
+                        std::thread::sleep(std::time::Duration::from_micros(20));
+                    } else {
+                        std::thread::yield_now();
+                    }
+                    res = hand.poll_once();
+                    i += 1;
+                }
+                let r = match res {
                     Some(Ok(())) => "Ok",
                     Some(Err(e)) if e.is_cancelled() => "Cancelled",
                     Some(Err(_)) => "Panic",
@@ -879,6 +1113,9 @@ impl World {
             }
         }
         for s in self.actors.iter() {
+            if let Some(t) = s.start_task.clone() {
+                self.eng.settle_done(&t).await;
+            }
             if let Some(t) = s.task.clone() {
                 self.eng.settle_done(&t).await;
             }
